@@ -54,7 +54,7 @@ macro_rules! inp_t { ($($n:ident: $t:ty, $l:literal, $u:literal;)*) => { paste::
 crate::fixed_types_q!(inp_q);
 crate::fixed_types_t!(inp_t);
 /// wide compacts: slim variant (slice vs unknown-length vs one three-deep stack)
-fn h_inputs_slim<T: DecodeWithMemTracking + Spec, const L: usize>() {
+pub fn h_inputs_slim<T: DecodeWithMemTracking + Spec, const L: usize>() {
 	let bytes: [u8; L] = kani::any();
 	let len: usize = kani::any();
 	kani::assume(len <= L);
